@@ -7,7 +7,8 @@ RULE = ("controlled schedules (real threads, one runnable at a time; scheduling 
         "destructor's lifetime wait) of pools with 1-3 workers and 1-3 client threads issuing 1-6 submissions of the six kinds (co_await pool, "
         "co_await pool(awaitable), run(fn), run_detached, resume(suspend_point), run(async)) whose job bodies are lists of up to 4 pool "
         "operations (submit again / run_detached from a worker, stop() on the own pool, current::is_stopped(), current::any_enqueued(), "
-        "co_await thread_pool::current(), waiting for the outcome of another submission), clients waiting for a submission, explicit stop() from clients, client threads calling worker(), destructor at the end (racing "
+        "co_await thread_pool::current(), waiting for the outcome of another submission, run(async) coroutines suspending on a later job), "
+        "resume(suspend_point) with 1..9 prepared coroutines, clients waiting for a submission, explicit stop() from clients, client threads calling worker(), destructor at the end (racing "
         "with job-issued stops); random, bursty, workers-first and clients-first schedules; every schedule prefix of length 5 over 3 choices "
         "for the two destructor-vs-job-stop configurations; thorough adds every prefix of length 8 for 9 small configurations; non-trivial = "
         "at least 3 thread switches in the executed trace and (a stop()/self-stop races with a submission or >= 2 submissions); distinct = "
@@ -37,7 +38,8 @@ KINDS = [0, 1, 2, 3, 4, 5]
 
 
 def mk(name, n, prog, sched):
-    """prog: list of ('s', client, kind, [actions]) | ('x', client) stop | ('w', client) worker() | ('j', client, label) wait"""
+    """prog: list of ('s', client, kind, [actions]) | ('x', client) stop | ('w', client) worker() | ('j', client, label) wait
+    | ('r', client, k) resume(suspend_point) with k prepared coroutines (k submissions of kind 4)"""
     ops = [[1, n]]
     for p in prog:
         if p[0] == 's':
@@ -46,6 +48,8 @@ def mk(name, n, prog, sched):
             ops.append([3, p[1]])
         elif p[0] == 'j':
             ops.append([5, p[1], p[2]])
+        elif p[0] == 'r':
+            ops.append([6, p[1], p[2]])
         else:
             ops.append([4, p[1]])
     ops.append([9] + list(sched))
@@ -115,6 +119,20 @@ def gen_prog(rng):
     prog = []
     for _ in range(ns):
         prog.append(('s', rng.randrange(m), rng.choice(KINDS), rand_body(rng)))
+    # resume(suspend_point) with several prepared coroutines (heap-backed suspend points above 3)
+    if rng.random() < 0.2:
+        prog.insert(rng.randrange(len(prog) + 1), ('r', rng.randrange(m), rng.choice([1, 2, 3, 4, 4, 5, 6, 7, 9])))
+    # a run(async) coroutine that suspends on something a later submission resolves: the worker must stay free
+    subs = [i for i, p in enumerate(prog) if p[0] == 's']
+    if len(subs) >= 2 and rng.random() < 0.25:
+        pos = 0; labels = {}
+        for i, p in enumerate(prog):
+            if p[0] == 's':
+                labels[i] = pos; pos += 1
+            elif p[0] == 'r':
+                pos += p[2]
+        a = rng.choice(subs[:-1]); t = rng.choice([x for x in subs if x > a])
+        prog[a] = ('s', prog[a][1], 5, [x for x in prog[a][3] if x != 6][:3] + [50 + labels[t]])
     # explicit stops: none / one somewhere / one on another client racing with the submissions / two
     r = rng.random()
     if r < 0.35:
@@ -156,6 +174,17 @@ def gen(seed, tier):
     # destructor against a stop() issued by a job: the destructor must wait for that stop
     for pre in itertools.product(range(3), repeat=5):
         cases.append(mk("d%d" % b, 2, [('s', 0, 3, [6]), ('s', 0, 3, [])], list(pre) + [0] * 4)); b += 1
+    # resume(suspend_point) with 1..9 prepared coroutines: every one of them has to reach the pool (and run on a worker)
+    for k in range(1, 10):
+        cases.append(mk("r%d" % b, 2, [('r', 0, k)], [1, 2, 0] * 4)); b += 1
+        cases.append(mk("r%d" % b, 1, [('s', 0, 3, []), ('r', 0, k), ('x', 0)], [0] * (k + 3))); b += 1
+        cases.append(mk("r%d" % b, 3, [('r', 1, k), ('s', 0, 0, [7])], [rng.randint(0, 4) for _ in range(12)])); b += 1
+    # run(async) whose coroutine suspends until a later job of the same pool has run: pools of 1 and 2 workers
+    for k in KINDS:
+        for n in (1, 2):
+            cases.append(mk("a%d" % b, n, [('s', 0, 5, [51]), ('s', 0, k, [])], [1, 0, 1, 0, 1, 2])); b += 1
+            cases.append(mk("a%d" % b, n, [('s', 0, 5, [7, 51]), ('s', 0, k, []), ('j', 0, 1)], [0, 0, 1, 1, 2, 0])); b += 1
+            cases.append(mk("a%d" % b, n, [('s', 0, 5, [51]), ('x', 1), ('s', 0, k, [])], [0, 1, 2, 0, 1, 2])); b += 1
     # a job that waits for the outcome of a later submission: needs a second worker to be woken for it (or a stop to cancel it)
     for pre in itertools.product(range(3), repeat=5):
         cases.append(mk("w%d" % b, 2, [('s', 0, 3, [11]), ('s', 0, 2, []), ('j', 0, 1)], list(pre) + [0, 1, 2] * 3)); b += 1
